@@ -69,7 +69,8 @@ def w_hist(hexes, pool, programs, src):
     part = HM.new_part()
     mdl = _model.Model()
     traces = {}
-    for b in BACKENDS:
+    backends = [b for b in BACKENDS if b in hexes]
+    for b in backends:
         tr, crashes = HM.run_histories(hexes[b], pool, programs)
         for idx, sig, err in crashes:
             p = programs[idx] if 0 <= idx < len(programs) else []
@@ -77,7 +78,7 @@ def w_hist(hexes, pool, programs, src):
         traces[b] = tr
     prev = {b: (0, 0) for b in BACKENDS}
     for i, prog in enumerate(programs):
-        for b in BACKENDS:
+        for b in backends:
             tr = traces[b][i]
             if tr is None:
                 continue
@@ -85,6 +86,9 @@ def w_hist(hexes, pool, programs, src):
             end = HM.check_trace(prog, tr, mdl, sub, src=src + "/" + b)
             for v in sub["viol"]:
                 part["viol"].append((b + "/" + v[0],) + tuple(v[1:]))
+            for k2, v2 in sub["counters"].items():
+                if k2.startswith("setup.create") or k2.startswith("failed-setup"):
+                    part["counters"]["%s.%s" % (b, k2)] += v2
             part["counters"]["histories.%s" % b] += 1
             if b == "idnkit":
                 creates, destroys, live, bad, dbl, enc = end[5:11]
@@ -101,9 +105,9 @@ def w_hist(hexes, pool, programs, src):
                 if dbl:
                     part["viol"].append(("idnkit/context-destroyed-twice", w, {"count": dbl}))
         # decisions along the history must agree between the back ends
-        t0 = traces["idn2"][i]
+        t0 = traces["idn2"][i] if "idn2" in traces else None
         for b in ("idn", "idnkit"):
-            t1 = traces[b][i]
+            t1 = traces[b][i] if b in traces else None
             if t0 is None or t1 is None:
                 continue
             def view(tr):
@@ -174,6 +178,17 @@ def main(tier, seed):
         progs = progs[seed % 2::2]
     for i in range(0, len(progs), 3000):
         jobs.append((w_hist, (hexes, HM.POOL7, progs[i:i + 3000], "exhaustive")))
+    # idnkit: the k-th context creation fails (C<k>) somewhere in a history that keeps switching modes
+    cf = []
+    rr = random.Random(seed * 7 + 1)
+    base_ops = ["r0", "r1", "r3", "r3", "s", "s", "e0", "e2", "t0", "m", "f", "r99"]
+    for k in (1, 2, 3):
+        for _ in range(150 if tier == "quick" else 1500):
+            p = ["C%d" % k] + [rr.choice(base_ops) for _ in range(rr.choice([4, 8, 16]))]
+            cf.append(p)
+        cf += [["C%d" % k, "r3", "s", "r0", "s", "r3", "s", "e0"], ["C%d" % k, "r3", "s", "f", "r3", "s", "e0", "f"],
+               ["r3", "s", "e0", "C%d" % k, "r0", "s", "r3", "s", "r1", "s", "r3", "s", "e2"]]
+    jobs.append((w_hist, ({"idnkit": hexes["idnkit"]}, HM.POOL7, cf, "create-failure")))
     for j in range(8 if tier == "quick" else 64):
         r = random.Random(seed * 977 + j)
         ops = HM.alphabet(mdl, len(HM.POOL7))
